@@ -199,6 +199,38 @@ def analyse(db, rep, tier):
             rep.ok("glob-class", gid, site, "thread_local: private to each thread")
             continue
         if is_const and not g.get("has_mutable"):
+            # a CONST POINTER to a non-const object is only half of (i): the pointer never changes, the object it designates
+            # is shared by every thread all the same.  Handing it to anything that takes a pointer to non-const is a write.
+            pt = (t or {}).get("to") if (t or {}).get("k") == "ptr" else None
+            if pt is not None and not pt.get("const") and pt.get("k") not in ("fn", "func", "function"):
+                hit = None
+
+                def is_use(f_, x):
+                    if x["k"] != "DeclRefExpr":
+                        return False
+                    if x.get("var") == gid:
+                        return True
+                    # a function-local static is referred to by its local id inside its function
+                    return gid.startswith("l:" + f_["id"] + "::") and x.get("name") == g.get("name") and \
+                        str(x.get("var") or "").startswith(str(g.get("name")) + "#%s:" % g.get("line"))
+                for f_ in db.functions.values():
+                    if not f_.get("body"):
+                        continue
+                    for c_ in facts.fn_nodes(f_):
+                        if c_["k"] in ("CallExpr", "CXXMemberCallExpr") and any(
+                                is_use(f_, x) for a_ in c_["c"][1:] for x in facts.walk(a_)):
+                            for a_ in c_["c"][1:]:
+                                if any(is_use(f_, x) for x in facts.walk(a_)):
+                                    at = facts.ty(f_, facts.strip(a_, casts=False)) or facts.ty(f_, a_) or {}
+                                    if at.get("k") == "ptr" and not (at.get("to") or {}).get("const"):
+                                        hit = (f_, c_)
+                if hit:
+                    rep.violation("glob-class", gid, site,
+                                  "`%s` is a const pointer with static storage to a NON-const %s, and %s() receives it as a pointer to "
+                                  "non-const (%s): one object, created once, is modified by every thread that comes through here - "
+                                  "results of concurrent calls on thread-private objects mix" %
+                                  (g.get("name"), (pt.get("s") or "object"), hit[1].get("cname"), facts.loc(hit[0], hit[1])))
+                    continue
             rep.ok("glob-class", gid, site, "(i) const-qualified %s, no mutable sub-object" % (t or {}).get("s", "?")[:60])
             continue
         nonconst[gid] = g
